@@ -34,14 +34,75 @@ def gen_nat_mtu(rng, k):
     return L
 
 
+def gen_udp_df(rng, k):
+    """UDP don't-fragment: one sender whose option is never touched, set, cleared again - through either
+    spelling of the option (IP_DONTFRAGMENT, IP_MTU_DISCOVER) - sending datagrams of sizes around the path MTU
+    to a receiver that always re-arms its receive.  Delivered = within the MTU, or option clear when sent."""
+    from .ncommon import Net
+    r = rng
+    mtu = r.choice([500, 600, 1475])
+    net = Net(r, nnodes=2, cap=0, bw=r.choice([0, 50000000]), lat=r.choice([0, 1000000]), mtu=mtu)
+    L = list(net.lines)
+    a1 = net.ip(1)[1]
+    ops = ["udp_new 1 1", "udp_open 1 1", "udp_bind 1 0 0 5000", "udp_new 2 2", "udp_open 2 1", "udp_bind 2 0 0 6000",
+           "udp_arecv 1 1 60 : 65536"]
+    H = {60: ["udp_arecv 1 1 60 : 65536"]}
+    t = 0
+    for j in range(r.choice([4, 8, 14])):
+        t += 10000000
+        h = 100 + j
+        ops += ["expires_at %d %d" % (10 + j, t), "async_wait %d %d" % (10 + j, h)]
+        if r.random() < 0.4:
+            H[h] = ["%s 2 %d" % (r.choice(["udp_df", "udp_pmtu", "udp_pmtu"]), r.choice([0, 1]))]
+        else:
+            H[h] = ["udp_send 2 0 %d 5000 : %d %d" % (a1, r.randrange(1000), r.choice([mtu - 1, mtu, mtu + 1, mtu + 2, 2 * mtu, 100, mtu + 400]))]
+    L += ["M " + o for o in ops]
+    for h in sorted(H):
+        L += ["H %d %s" % (h, o) for o in H[h]]
+    L.append("M run")
+    return L
+
+
 def generate(rng, tier):
     n = 10 if tier == "quick" else 300
-    return tcommon.generate_flavour("mtu")(rng, tier) + [("nm%d" % k, gen_nat_mtu(rng, k)) for k in range(n)]
+    return (tcommon.generate_flavour("mtu")(rng, tier) + [("nm%d" % k, gen_nat_mtu(rng, k)) for k in range(n)]
+            + [("df%d" % k, gen_udp_df(rng, k)) for k in range(2 * n)])
 classify = tcommon.classify
 nontrivial = tcommon.nontrivial
 
 
+def oracle_udp_df(lines, trace):
+    fails = []
+    mtu = 1475
+    for l in lines:
+        t = l.split()
+        if t[0] == "MTU":
+            mtu = int(t[1])
+    df = False
+    want = []
+    for l in lines:
+        t = l.split()
+        if t[0] == "H" and t[2] in ("udp_df", "udp_pmtu") and t[3] == "2":
+            df = t[4] == "1"
+        elif t[0] == "H" and t[2] == "udp_send" and t[3] == "2":
+            size = int(t[-1])
+            if size <= mtu or not df:
+                want.append(size)
+    got = [f[2] for (tm, tag, f) in parse_trace(trace) if tag == 1 and f[0] == 60 and len(f) >= 5 and f[1] == 0]
+    if got != want:
+        fails.append(("c20/udp-df", "path MTU %d: datagrams of sizes %s were delivered, expected %s (oversized ones are discarded only while "
+                      "the don't-fragment option is set)" % (mtu, got, want)))
+    for (tm, tag, f) in parse_trace(trace):
+        if tag == 4 and f[0] == 2 and (f[2] != 0):
+            fails.append(("c20/udp-send-result", "send_to did not report the datagram as sent: ec=%d" % f[2]))
+            break
+    return fails
+
+
 def oracle(lines, trace):
+    if any(l.startswith("H 60 udp_arecv 1 1 60") for l in lines):
+        bad = ncommon.crashed(trace)
+        return [("c20/crash", bad)] if bad else oracle_udp_df(lines, trace)
     bad = ncommon.crashed(trace)
     if bad:
         return [("c20/crash", bad)]
